@@ -42,9 +42,16 @@ class Path:
         self.stores = stores if stores is not None else []   # [(dotted target text, value AST, stmt)]
         self.end = end          # None | 'return' | 'raise' | 'continue' | 'break'
         self.calls = calls if calls is not None else []      # [(substituted Call of an expression stmt, stmt)]
+        self.events = []        # ordered log: ('create', token, call, stmt, loops) | ('store', key, value, stmt, loops)
+        #                                      | ('call', call, stmt, loops)
+        self.loops = ()         # texts of the loops the walk is inside of
 
     def fork(self):
-        return Path(dict(self.env), self.conds, self.ret, list(self.stores), self.end, list(self.calls))
+        q = Path(dict(self.env), self.conds, self.ret, list(self.stores), self.end, list(self.calls))
+        q.events = list(self.events)
+        q.loops = self.loops
+        q.asserted = getattr(self, 'asserted', ())
+        return q
 
 
 def atomize(test, val):
@@ -65,8 +72,14 @@ def atomize(test, val):
 
 
 class SymExec:
-    def __init__(self, ctx, func, depth=2, expand=True, bind_loops=False, no_expand=(), max_paths=MAX_PATHS):
+    def __init__(self, ctx, func, depth=2, expand=True, bind_loops=False, no_expand=(), max_paths=MAX_PATHS,
+                 objects=False, effects=False, volatile=()):
         self.max_paths = max_paths
+        self.volatile = tuple(volatile)  # attribute names changed by object creation: reads are stamped
+        #                                  _read(<expr>, <number of objects created so far on the path>)
+        self.objects = objects          # `x = Class(...)` binds x to a token _objN (identity of created objects)
+        self.effects = effects          # statement-level helper calls with side effects are expanded in place
+        self._ntok = [0]
         self.no_expand = no_expand      # qualified names of callees that are not looked through
         self.ctx = ctx
         self.func = func
@@ -171,7 +184,9 @@ class SymExec:
         if body and isinstance(body[0], ast.Expr) and isinstance(body[0].value, ast.Constant) and \
            isinstance(body[0].value.value, str):
             body = body[1:]
-        sub = SymExec(self.ctx, self.func, self.depth - 1, self.expand, self.bind_loops, self.no_expand)
+        sub = SymExec(self.ctx, self.func, self.depth - 1, self.expand, self.bind_loops, self.no_expand,
+                      self.max_paths, self.objects, self.effects, self.volatile)
+        sub._ntok = self._ntok
         sub.local_defs = dict(self.local_defs)
         res = []
         for p in sub.run(stmts=body, env=bind):
@@ -185,10 +200,11 @@ class SymExec:
             res.append((p.ret, p.conds))
         return res or None
 
-    def helper_paths(self, call, env):
-        """[(value AST, conds)] of a helper call with substituted arguments, or None"""
+    def helper_paths(self, call, env, with_effects=False):
+        """[(value AST, conds)] of a helper call with substituted arguments, or None;
+        with_effects: the callee's Paths themselves (stores / calls / events to be merged by the caller)"""
         if isinstance(call.func, ast.Name) and call.func.id in self.local_defs and self.depth > 0:
-            return self._local_paths(call, env)
+            return None if with_effects else self._local_paths(call, env)
         g = self._callee(call)
         if g is None:
             return None
@@ -204,8 +220,12 @@ class SymExec:
             bind.setdefault(p_.arg, d)
         if any(p_ not in bind for p_ in params):
             return None
-        sub = SymExec(self.ctx, g, self.depth - 1, self.expand, self.bind_loops, self.no_expand)
+        sub = SymExec(self.ctx, g, self.depth - 1, self.expand, self.bind_loops, self.no_expand,
+                      self.max_paths, self.objects, self.effects, self.volatile)
+        sub._ntok = self._ntok
         paths = sub.run(env=dict(bind))
+        if with_effects:
+            return [p for p in paths if p.end != 'raise'] or None
         res = []
         for p in paths:
             if p.end == 'raise':
@@ -223,6 +243,14 @@ class SymExec:
     def eval_expr(self, e, path):
         """[(value AST, Path)]: e substituted in path.env; helper calls expanded (forking)"""
         v = self.subst(e, path.env)
+        if self.volatile:
+            ncre = sum(1 for ev in path.events if ev[0] == 'create')
+            done = {id(x.args[0]) for x in ast.walk(v) if isinstance(x, ast.Call) and isinstance(x.func, ast.Name)
+                    and x.func.id == '_read' and x.args}
+            v = copy_replace(v, lambda n: ast.Call(func=ast.Name(id='_read', ctx=ast.Load()),
+                                                   args=[n, ast.Constant(value=ncre)], keywords=[])
+                             if isinstance(n, ast.Attribute) and n.attr in self.volatile and id(n) not in done
+                             and isinstance(n.ctx, ast.Load) else None)
         calls = []
         for n in ast.walk(v):
             if isinstance(n, ast.Call):
@@ -274,6 +302,7 @@ class SymExec:
             key = (d + '.' + target.attr) if d else dotted(target)
             p.env[dotted(target)] = value
             p.stores.append((key, value, st))
+            p.events.append(('store', key, value, st, p.loops))
         elif isinstance(target, (ast.Tuple, ast.List)):
             if isinstance(value, (ast.Tuple, ast.List)) and len(value.elts) == len(target.elts):
                 for t, v in zip(target.elts, value.elts):
@@ -287,6 +316,8 @@ class SymExec:
             if d is not None:
                 p.env.pop(d, None)      # element store: the container is no longer a known expression
                 p.stores.append((d + '[...]', value, st))
+                idx = norm(self.subst(target.slice, p.env)) if isinstance(target.slice, ast.AST) else '?'
+                p.events.append(('store', '%s[%s]' % (d, idx), value, st, p.loops))
 
     def _summarise_accumulators(self, loop, before, after_paths):
         """v = init; for x in IT: v += E(x)   ==>   after the loop v is init + sum(_each(E(IT[_k])))
@@ -344,10 +375,38 @@ class SymExec:
         self._assign(target, elem(it), p, None)
         p.stores = [s_ for s_ in p.stores if s_[2] is not None]
 
+    def _effect_call(self, st, p):
+        """`x = self.helper(...)` / `self.helper(...)` where the helper has side effects: its stores,
+        calls and events become ours (arguments substituted), one caller path per helper path"""
+        call = st.value
+        if not (self.effects and isinstance(call, ast.Call)):
+            return None
+        c2 = self.subst(call, p.env)
+        hp = self.helper_paths(c2, p.env, with_effects=True)
+        if hp is None or not any(q.stores or q.calls or q.events for q in hp):
+            return None
+        out = []
+        for q in hp:
+            p2 = p.fork()
+            p2.conds = p2.conds + tuple(c for c in q.conds if c not in p2.conds)
+            p2.stores += q.stores
+            p2.calls += q.calls
+            p2.events += [ev[:-1] + (p.loops + ev[-1],) for ev in q.events]
+            if isinstance(st, ast.Assign):
+                val = q.ret if q.ret is not None else ast.Constant(value=None)
+                for t in st.targets:
+                    self._assign(t, val, p2, st)
+            out.append(p2)
+        return out
+
     def _stmt(self, st, p):
         if isinstance(st, ast.FunctionDef):
             self.local_defs[st.name] = st
             return [p]
+        if isinstance(st, (ast.Assign, ast.Expr)) and self.effects:
+            r = self._effect_call(st, p)
+            if r is not None:
+                return r
         if isinstance(st, ast.If):
             out = []
             test = self.subst(st.test, p.env)
@@ -405,7 +464,10 @@ class SymExec:
             else:
                 loop_txt = norm(self.subst(st.test, p.env))
             p2.conds = p2.conds + (('loop', loop_txt),)
+            p2.loops = p.loops + (loop_txt,)
             body = self._block(st.body, [p2.fork()])
+            for b in body:
+                b.loops = p.loops
             out = []
             for b in body:
                 if b.end in ('continue', 'break'):
@@ -442,6 +504,14 @@ class SymExec:
         if isinstance(st, ast.Assign):
             out = []
             for v, p2 in self.eval_expr(st.value, p):
+                if isinstance(v, ast.Call):
+                    if self.objects and isinstance(v.func, ast.Name) and v.func.id in self.ctx.model.classes:
+                        tok = ast.Name(id='_obj%d' % self._ntok[0], ctx=ast.Load())
+                        self._ntok[0] += 1
+                        p2.events.append(('create', tok.id, v, st, p2.loops))
+                        v = tok
+                    else:
+                        p2.events.append(('call', v, st, p2.loops))
                 for t in st.targets:
                     self._assign(t, v, p2, st)
                 out.append(p2)
@@ -475,6 +545,7 @@ class SymExec:
                     if keep in p.env:
                         p2.env[keep] = p.env[keep]
                 p2.calls.append((v, st))
+                p2.events.append(('call', v, st, p2.loops))
                 fn = st.value.func
                 if isinstance(fn, ast.Attribute) and fn.attr in (
                         'append', 'extend', 'insert', 'update', 'add', 'sort', 'reverse', 'pop', 'remove', 'clear'):
@@ -502,7 +573,9 @@ class SymExec:
         if isinstance(st, ast.With):
             return self._block(st.body, [p])
         if isinstance(st, ast.Assert):
-            p.conds = p.conds + ((norm(self.subst(st.test, p.env)), True),)
+            ats = atomize(self.subst(st.test, p.env), True)
+            p.conds = p.conds + tuple(a for a in ats if a not in p.conds)
+            p.asserted = getattr(p, 'asserted', ()) + tuple(a for a in ats)
             return [p]
         return [p]
 
@@ -531,6 +604,17 @@ def simplify(e):
            isinstance(n.slice, ast.Constant) and isinstance(n.slice.value, int) and \
            -len(n.value.elts) <= n.slice.value < len(n.value.elts):
             return simplify(n.value.elts[n.slice.value])
+        if isinstance(n, ast.Subscript) and isinstance(n.value, ast.Subscript) and isinstance(n.value.slice, ast.Slice) \
+           and not isinstance(n.slice, (ast.Slice, ast.Tuple)) and n.value.slice.step is None:
+            sl = n.value.slice
+            k_is_idx = isinstance(n.slice, ast.Name) and n.slice.id.startswith('_k')
+            if k_is_idx and sl.lower is None:
+                # element k of a prefix is element k of the sequence
+                return simplify(ast.Subscript(value=n.value.value, slice=n.slice, ctx=ast.Load()))
+            if k_is_idx and sl.upper is None and isinstance(sl.lower, ast.Constant) and isinstance(sl.lower.value, int) \
+               and sl.lower.value > 0:
+                return simplify(ast.Subscript(value=n.value.value, slice=ast.BinOp(left=n.slice, op=ast.Add(), right=sl.lower),
+                                              ctx=ast.Load()))
         if isinstance(n, ast.Call) and isinstance(n.func, ast.Name) and n.func.id == 'len' and len(n.args) == 1 \
            and not n.keywords:
             a = simplify(n.args[0])
